@@ -63,7 +63,7 @@ MALFORMED = [
 
 def plan(tier):
     n = len(tasks())
-    return {"ncases": n, "nshards": 16, "budget_s": 90 if tier == "quick" else 600, "floor": 300, "stall_s": 60}
+    return {"ncases": n, "nshards": 16, "budget_s": 90 if tier == "quick" else 600, "floor": 200, "stall_s": 60}
 
 
 def tasks():
